@@ -80,7 +80,18 @@ func execC17(t *testing.T, p Plan, src kernel.Source) Result {
 				}
 			}
 			op := prefixOp(*st.Op, pre)
-			r := hcall(h, op, false)
+			// the call runs on a goroutine of its own: a backend that blocks (it has no I/O to
+			// wait for) is then a finding, not a stuck harness
+			var r HRes
+			done := make(chan struct{})
+			go func() { r = hcall(h, op, false); close(done) }()
+			w.Quiesce()
+			select {
+			case <-done:
+			default:
+				res.V = &Violation{Prop: "C17", Rule: "hang", Step: i, Class: "hang:" + op.Kind, Msg: fmt.Sprintf("%s (%d keys) never returned: the in-memory backend is blocked (and with it every other connection, it is shared)", op.Kind, len(op.Keys))}
+				return
+			}
 			exp := applyModel(ref, op)
 			if r.Panic != "" {
 				res.V = &Violation{Prop: "C17", Rule: "panic", Step: i, Class: "panic:" + op.Kind, Msg: fmt.Sprintf("%s panicked: %s", op, r.Panic)}
@@ -332,6 +343,20 @@ func genC17(seed uint64, tier string) Plan {
 		}
 		op := g.dataOp("bin", keys, now, false, &opq)
 		op.Quiet = false
+		if g.p(1, 40) {
+			// a get of very many keys (sizes around powers of two): hits, misses and repeats
+			n := pick(g, []int{255, 256, 1023, 1024, 1025, 2048, 4097})
+			op = wire.Op{Kind: "get", Opaque: opq}
+			for j := 0; j < n; j++ {
+				k := pick(g, keys)
+				if j%3 == 0 {
+					k = fmt.Sprintf("absent-%d", j%17)
+				}
+				op.Keys = append(op.Keys, k)
+				op.Quiets = append(op.Quiets, false)
+			}
+			opq += uint32(n)
+		}
 		p.Steps = append(p.Steps, Step{Op: &op})
 	}
 	return p
@@ -341,7 +366,7 @@ func init() {
 	register(&Prop{
 		ID: "C17", Gen: genC17, Exec: execC17,
 		Nontrivial: func(p Plan, r Result) bool { return p.Mode != "" || nontrivialSeq(p, r) },
-		Rule:       "55% of the runs: sequential command sequences (all commands incl. multi-key gets and gat, 1-3 colliding keys, TTL 0 or 1-5 s, clock steps with the boundary second skipped) on the real inmem singleton (unique key prefix per run) compared with the reference map. 40%: 2-32 tasks with 1-3 commands each (with lifetimes of 0 or 50-3000 s) on 1-2 keys, in half of these runs starting from keys that were stored with a 1-2 s lifetime and have expired but are still in the map; the singleton's RWMutex is sim-owned, every Lock/RLock parks and the kernel grants them; oracle = porcupine linearizability per key plus lock discipline from the lock log (a mutating command must hold the write lock). 5%: auxiliary real-parallel stage outside the technique family (runtime monitoring): 2-32 real goroutines mix reads of missing keys with sets and deletes on the real mutex; the Go runtime's concurrent map access detector terminates the process if the map is written under the read lock, which the driver reports as a crash in repository code. Non-trivial = a key written earlier is addressed again / any concurrent mode; distinct = distinct plan hash",
+		Rule:       "55% of the runs: sequential command sequences (all commands incl. multi-key gets - one command in forty a get of 255-4097 keys - and gat, 1-3 colliding keys, TTL 0 or 1-5 s, clock steps with the boundary second skipped) on the real inmem singleton (unique key prefix per run) compared with the reference map. 40%: 2-32 tasks with 1-3 commands each (with lifetimes of 0 or 50-3000 s) on 1-2 keys, in half of these runs starting from keys that were stored with a 1-2 s lifetime and have expired but are still in the map; the singleton's RWMutex is sim-owned, every Lock/RLock parks and the kernel grants them; oracle = porcupine linearizability per key plus lock discipline from the lock log (a mutating command must hold the write lock). 5%: auxiliary real-parallel stage outside the technique family (runtime monitoring): 2-32 real goroutines mix reads of missing keys with sets and deletes on the real mutex; the Go runtime's concurrent map access detector terminates the process if the map is written under the read lock, which the driver reports as a crash in repository code. Non-trivial = a key written earlier is addressed again / any concurrent mode; distinct = distinct plan hash",
 		Real:       []string{"handlers/inmem (singleton map + RWMutex)"},
 		Stub:       []string{"clock (testing/synctest)", "sync.RWMutex of the singleton (sim-owned in interleave mode, real in the parallel stage)", "caller tasks"},
 		Assume:     []string{"the parallel stage relies on the Go runtime's built-in concurrent map access detection, which is probabilistic; it is auxiliary evidence"},
